@@ -159,6 +159,7 @@ FIRING = [
     ("cancel-clears-store-after-hooks", "jesse/strategies/Strategy.py", "        if not jh.is_unit_testing() and not jh.is_live():\n            store.orders.storage[f'{self.exchange}-{self.symbol}'].clear()\n\n        self._broadcast('route-canceled')\n\n        self.on_cancel()\n", "        self._broadcast('route-canceled')\n\n        self.on_cancel()\n\n        if not jh.is_unit_testing() and not jh.is_live():\n            store.orders.storage[f'{self.exchange}-{self.symbol}'].clear()\n", ["C05"]),
     ("flip-close-not-reported", "jesse/models/Position.py", "                        if self.strategy:\n                            self.strategy._on_updated_position(order)\n                        # what is left", "                        # what is left", ["C06", "C03"]),
     ("oversize-exit-booked-whole", "jesse/store/state_completed_trades.py", "        if p is not None and p.qty != 0 and p.qty * qty < 0 and abs(qty) > abs(p.qty):\n            qty = abs(p.qty)\n", "", ["C06"]),
+    ("normal-simulator-clock-not-advanced", BT, "        store.app.time = first_candles_set[i][0] + 60_000\n\n        # add candles", "        # add candles", ["C01", "C02"]),
     ("dna-append-multiple-empty", "jesse/libs/dynamic_numpy_array/__init__.py", "        if len(items) == 0:\n            return\n", "", ["C18"]),
     ("dna-delete-raw-index", "jesse/libs/dynamic_numpy_array/__init__.py", "        if index < 0:\n            index = (self.index + 1) - abs(index)\n        if index > self.index or index < 0:\n            raise IndexError('list assignment index out of range')\n\n        self.array = np.delete", "        self.array = np.delete", ["C18"]),
 ]
